@@ -255,6 +255,18 @@ func C05_Cut_Import() {
 	cfg.thresh = []int{0}
 	cfg.fast = []bool{false, true}
 	src := vShapeState(cfg, 2, 0, []int{1})
+	// optionally the exported version was committed without writes (its root is inherited from the
+	// version before: the importer writes a reference root), or with one more write
+	switch vChoice("second", 3) {
+	case 1:
+		src.doCommit()
+		vCover("import-of-a-version-without-writes")
+	case 2:
+		if src.p.n > 0 {
+			src.doSet(vChoice("key2", src.p.n))
+			src.doCommit()
+		}
+	}
 	v := src.latest
 	it, err := src.tree.GetImmutable(v)
 	vAssert(err == nil, "c05:import:getimmutable")
